@@ -3,7 +3,7 @@
    (Gen/GenOwner.v); job_loop / job_run / parallel / serial are defined in Model/C08.v. *)
 From Coq Require Import ZArith List Bool Permutation Sorted.
 Import ListNotations.
-From SCMO Require Import Lib.Val Gen.GenOwner Model.C08 Proofs.C08_a Proofs.C08_b Proofs.C08 Proofs.C08_ex.
+From SCMO Require Import Lib.Val Lib.Tiling Model.C17 Gen.GenOwner Model.C08 Model.C08x Proofs.C08_a Proofs.C08_b Proofs.C08 Proofs.C08_ex Proofs.C08_x Proofs.C08_y.
 Open Scope Z_scope.
 
 (* T: the regenerated gate writes a molecule iff its site is on the task's contig inside
@@ -159,3 +159,159 @@ Example C08_example_owners :
   map (fun t => map f_key (job_frags partial_nla t ex_fs)) [ex_t0; ex_t1] = [[10; 10; 11; 12; 13; 16]; [11; 12; 13; -8]].
 Proof. exact ex_owners. Qed.
 Print Assumptions C08_example_owners.
+
+(* ================================================================== the GENERATED tiling (Model/C08x.v)
+   gen_tasks c len bs f = the (contig, start, end, fetch_start, fetch_end) tuples blacklisted_binning_contigs
+   yields for a contig of length len, bin size bs, fragment size f, no blacklist (blacklisted_binning is
+   the model of C17, regenerated expressions).  For every len >= 0, bin size >= 1 and margin f >= L the
+   tasks tile [0,len) consecutively and their fetch margins are at least L or clipped at the contig ends *)
+Theorem C08_gen_tiling : forall L c len bs f, 0 < bs -> 0 <= len -> L <= f ->
+  C08.chain c 0 len (gen_tasks c len bs f) = true /\ forallb (margin_ok L len) (gen_tasks c len bs f) = true.
+Proof. exact gen_tasks_tiling. Qed.
+Print Assumptions C08_gen_tiling.
+
+(* every generated task: region task of contig c, non-empty bin inside [0,len] of at most bs bases,
+   fetch window = the bin widened by f on both sides and clipped to [0, len] *)
+Theorem C08_gen_shape : forall c len bs f t, 0 < bs -> 0 <= len -> In t (gen_tasks c len bs f) ->
+  t_contig t = c /\ t_region t = true /\ 0 <= t_start t /\ t_start t < t_end t /\ t_end t <= len /\ t_end t - t_start t <= bs /\ t_fs t = Z.max 0 (t_start t - f) /\ t_fe t = Z.min len (t_end t + f).
+Proof. exact gen_tasks_shape. Qed.
+Print Assumptions C08_gen_shape.
+
+(* the whole job list of the tiled mode is a well-formed plan (contig names pairwise different) *)
+Theorem C08_gen_plans_ok : forall L contigs bs f, 0 < bs -> L <= f ->
+  (forall cl, In cl contigs -> 0 <= snd cl) -> distinct (map fst contigs) = true ->
+  plans_ok L (gen_plans contigs bs f) = true.
+Proof. exact gen_plans_ok. Qed.
+Print Assumptions C08_gen_plans_ok.
+
+(* EQUIVALENCE for the generated tiling: the tiling hypothesis of C08_equiv is discharged *)
+Theorem C08_equiv_generated : forall (g : list frag -> list mol) (partial : task -> frag -> frag)
+    (ksite : Z -> option Z) (kcontig : Z -> Z) (L : Z) (contigs : list (Z * Z)) (bs f : Z) (fs : list frag)
+    (tagf : mol -> frag -> read -> Z) (jobs : list (list task)),
+  let ps := gen_plans contigs bs f in
+  (forall l m f, In m (g l) -> In f m -> In f l) ->
+  (forall l m, In m (g l) -> m <> []) ->
+  0 < bs -> L <= f -> (forall cl, In cl contigs -> 0 <= snd cl) -> distinct (map fst contigs) = true ->
+  frags_ok L ps fs = true ->
+  (forall f, In f fs -> keyed ksite kcontig f) ->
+  (forall t f, In t (plan_tasks ps) -> In f fs -> In (partial t f) (job_frag partial t f) -> keyed ksite kcontig (partial t f)) ->
+  (forall t f, In t (plan_tasks ps) -> In f fs ->
+     f_site (partial t f) = None \/ f_site (partial t f) = f_site f \/
+     exists r, In r (f_reads f) /\ f_site (partial t f) = Some (r_lo r)) ->
+  (forall t f, In t (plan_tasks ps) -> In f fs -> f_contig f = t_contig t -> f_contig (partial t f) = t_contig t) ->
+  Permutation (concat jobs) (gen_regions contigs bs f) ->
+  Permutation (flat_map (write tagf) (parallel g partial jobs fs))
+              (flat_map (write tagf) (filter (covered_mol ps) (serial g fs))).
+Proof. exact equiv_generated. Qed.
+Print Assumptions C08_equiv_generated.
+
+(* the job list run_multiome_tagging builds (bp_chunked of the regions, any bp_per_job) in any
+   completion order satisfies the last hypothesis of C08_equiv_generated *)
+Theorem C08_gen_jobs_any_order : forall contigs bs f k jobs, Permutation jobs (gen_jobs contigs bs f k) ->
+  Permutation (concat jobs) (gen_regions contigs bs f).
+Proof. exact gen_jobs_perm. Qed.
+Print Assumptions C08_gen_jobs_any_order.
+
+(* which molecules are covered by the generated tiling depends on the contig lengths only *)
+Theorem C08_gen_covered : forall contigs bs f c s, 0 < bs -> (forall cl, In cl contigs -> 0 <= snd cl) ->
+  covered (gen_plans contigs bs f) c s = covered_tiled contigs c s.
+Proof. exact covered_gen. Qed.
+Print Assumptions C08_gen_covered.
+
+(* BIN SIZE INDEPENDENCE: two bin sizes / fragment sizes (margins at least L), any job grouping and
+   completion order each: the same multiset of records *)
+Theorem C08_binsize_independent : forall (g : list frag -> list mol) (partial : task -> frag -> frag)
+    (ksite : Z -> option Z) (kcontig : Z -> Z) (L : Z) (contigs : list (Z * Z)) (bs1 f1 bs2 f2 : Z) (fs : list frag)
+    (tagf : mol -> frag -> read -> Z) (jobs1 jobs2 : list (list task)),
+  (forall l m f, In m (g l) -> In f m -> In f l) ->
+  (forall l m, In m (g l) -> m <> []) ->
+  0 < bs1 -> 0 < bs2 -> L <= f1 -> L <= f2 ->
+  (forall cl, In cl contigs -> 0 <= snd cl) -> distinct (map fst contigs) = true ->
+  frags_ok L (gen_plans contigs bs1 f1) fs = true -> frags_ok L (gen_plans contigs bs2 f2) fs = true ->
+  (forall f, In f fs -> keyed ksite kcontig f) ->
+  (forall t f, In f fs -> In (partial t f) (job_frag partial t f) -> keyed ksite kcontig (partial t f)) ->
+  (forall t f, In f fs ->
+     f_site (partial t f) = None \/ f_site (partial t f) = f_site f \/
+     exists r, In r (f_reads f) /\ f_site (partial t f) = Some (r_lo r)) ->
+  (forall t f, In f fs -> f_contig f = t_contig t -> f_contig (partial t f) = t_contig t) ->
+  Permutation (concat jobs1) (gen_regions contigs bs1 f1) ->
+  Permutation (concat jobs2) (gen_regions contigs bs2 f2) ->
+  Permutation (flat_map (write tagf) (parallel g partial jobs1 fs))
+              (flat_map (write tagf) (parallel g partial jobs2 fs)).
+Proof. exact binsize_independent. Qed.
+Print Assumptions C08_binsize_independent.
+
+(* COUNT CONSERVATION: the numbers of records written by the tasks add up to the number of records of
+   the covered serial molecules (nothing written twice, nothing lost) *)
+Theorem C08_count_conservation : forall (g : list frag -> list mol) (partial : task -> frag -> frag)
+    (ksite : Z -> option Z) (kcontig : Z -> Z) (L : Z) (ps : list contig_plan) (fs : list frag)
+    (tagf : mol -> frag -> read -> Z) (jobs : list (list task)),
+  (forall l m f, In m (g l) -> In f m -> In f l) ->
+  (forall l m, In m (g l) -> m <> []) ->
+  plans_ok L ps = true -> frags_ok L ps fs = true ->
+  (forall f, In f fs -> keyed ksite kcontig f) ->
+  (forall t f, In t (plan_tasks ps) -> In f fs -> In (partial t f) (job_frag partial t f) -> keyed ksite kcontig (partial t f)) ->
+  (forall t f, In t (plan_tasks ps) -> In f fs ->
+     f_site (partial t f) = None \/ f_site (partial t f) = f_site f \/
+     exists r, In r (f_reads f) /\ f_site (partial t f) = Some (r_lo r)) ->
+  (forall t f, In t (plan_tasks ps) -> In f fs -> f_contig f = t_contig t -> f_contig (partial t f) = t_contig t) ->
+  Permutation (concat jobs) (plan_tasks ps) ->
+  list_sum (map (fun t => length (flat_map (write tagf) (job_run g partial t fs))) (concat jobs))
+  = length (flat_map (write tagf) (filter (covered_mol ps) (serial g fs))).
+Proof. exact count_conservation. Qed.
+Print Assumptions C08_count_conservation.
+
+(* non-vacuity: len = 3*833+1, len < bin, margin > bin, empty contig; and the example library on two
+   tilings (3 and 10 regions) satisfies the hypotheses and gets the same 13 records written *)
+Example C08_gen_example :
+  map t4 (gen_tasks 7 2500 1000 100) = [(0, 833, 0, 933); (833, 1666, 733, 1766); (1666, 2499, 1566, 2500); (2499, 2500, 2399, 2500)] /\
+  map t4 (gen_tasks 7 5 1000 100) = [(0, 5, 0, 5)] /\
+  map t4 (gen_tasks 7 2000 1000 1500) = [(0, 1000, 0, 2000); (1000, 2000, 0, 2000)] /\
+  gen_tasks 7 0 1000 100 = [].
+Proof. exact gen_example. Qed.
+Print Assumptions C08_gen_example.
+
+Example C08_gen_example_binsize :
+  let cs := [(0, 2000); (1, 500)] in
+  plans_ok 100 (gen_plans cs 1000 100) = true /\ plans_ok 100 (gen_plans cs 300 117) = true /\
+  frags_ok 100 (gen_plans cs 1000 100) ex_fs = true /\ frags_ok 100 (gen_plans cs 300 117) ex_fs = true /\
+  length (gen_regions cs 1000 100) = 3%nat /\ length (gen_regions cs 300 117) = 10%nat /\
+  mol_read_ids (parallel g_one partial_nla (gen_jobs cs 1000 100 1000) ex_fs) = [0; 1; 2; 3; 4; 5; 14; 15; 6; 8; 9; 10; 11] /\
+  mol_read_ids (parallel g_one partial_nla (gen_jobs cs 300 117 700) ex_fs) = [0; 1; 2; 3; 14; 15; 4; 5; 8; 9; 6; 10; 11].
+Proof. exact gen_example_binsize. Qed.
+Print Assumptions C08_gen_example_binsize.
+
+(* NO RECORD IS WRITTEN TWICE: if the serial pass writes every record id once, so do the jobs - for any
+   number of tasks, any overlap of their fetch windows (a molecule may be fetched by many tasks), any
+   job grouping and completion order *)
+Theorem C08_no_double_write : forall (g : list frag -> list mol) (partial : task -> frag -> frag)
+    (ksite : Z -> option Z) (kcontig : Z -> Z) (L : Z) (ps : list contig_plan) (fs : list frag)
+    (tagf : mol -> frag -> read -> Z) (jobs : list (list task)),
+  (forall l m f, In m (g l) -> In f m -> In f l) ->
+  (forall l m, In m (g l) -> m <> []) ->
+  plans_ok L ps = true -> frags_ok L ps fs = true ->
+  (forall f, In f fs -> keyed ksite kcontig f) ->
+  (forall t f, In t (plan_tasks ps) -> In f fs -> In (partial t f) (job_frag partial t f) -> keyed ksite kcontig (partial t f)) ->
+  (forall t f, In t (plan_tasks ps) -> In f fs ->
+     f_site (partial t f) = None \/ f_site (partial t f) = f_site f \/
+     exists r, In r (f_reads f) /\ f_site (partial t f) = Some (r_lo r)) ->
+  (forall t f, In t (plan_tasks ps) -> In f fs -> f_contig f = t_contig t -> f_contig (partial t f) = t_contig t) ->
+  Permutation (concat jobs) (plan_tasks ps) ->
+  NoDup (written_ids tagf (serial g fs)) ->
+  NoDup (written_ids tagf (parallel g partial jobs fs)).
+Proof. exact no_double_write. Qed.
+Print Assumptions C08_no_double_write.
+
+(* however many tasks of a tiling FETCH a site (their windows contain it), exactly one task owns it
+   and at most one of the fetching tasks does *)
+Theorem C08_owner_unique_among_fetchers : forall c lo hi ts s, C08.chain c lo hi ts = true -> lo <= s < hi ->
+  length (filter (fun t => owns t c s) ts) = 1%nat /\
+  Nat.le (length (filter (fun t => owns t c s) (filter (fun t => (t_fs t <=? s) && (s <? t_fe t)) ts))) 1.
+Proof. exact owner_unique_among_fetchers. Qed.
+Print Assumptions C08_owner_unique_among_fetchers.
+
+Example C08_no_double_write_example : NoDup (written_ids ex_tag (serial g_one ex_fs)) /\
+  NoDup (written_ids ex_tag (parallel g_one partial_nla ex_jobs ex_fs)) /\
+  length (written_ids ex_tag (parallel g_one partial_nla ex_jobs ex_fs)) = length (written_ids ex_tag (serial g_one ex_fs)).
+Proof. exact ex_no_double. Qed.
+Print Assumptions C08_no_double_write_example.
